@@ -27,7 +27,7 @@ def run(sd):
 
 
 seeds = sorted(p for p in (HERE / "neutral_seeded").iterdir() if (p / "patch.diff").exists())
-with ThreadPoolExecutor(4) as ex:
+with ThreadPoolExecutor(int(os.environ.get("MX_JOBS", "4"))) as ex:
     res = dict(ex.map(run, seeds))
 lines = ["| refactoring | kind | functions | reported by |", "|---|---|---|---|"]
 silent = 0
